@@ -64,3 +64,34 @@ theorem isFinal_final (I : PrimInst) (s : PState) (h : I.isFinal s = true) : I.F
 end PrimInst
 
 end Opf
+
+namespace Opf
+
+theorem tabOf_map_range {β : Type} (n : Nat) (f : Nat → β) : tabOf ((Array.range n).map f) f = f := by
+  funext x
+  show (if h : x < ((Array.range n).map f).size then ((Array.range n).map f)[x] else f x) = f x
+  split
+  · simp
+  · rfl
+
+namespace CompInst
+theorem freeze_eq (n : Nat) (s : AState) : freeze n s = s := by
+  cases s; simp [freeze, tabOf_map_range]
+
+theorem runPicksF_eq (I : CompInst) (s : AState) (ps : List Nat) : I.runPicksF s ps = I.runPicks s ps := by
+  induction ps generalizing s with
+  | nil => rfl
+  | cons p ps ih => simp only [runPicksF, runPicks, freeze_eq, ih]
+end CompInst
+
+namespace PrimInst
+theorem freeze_eq (n : Nat) (s : PState) : freeze n s = s := by
+  cases s; simp [freeze, tabOf_map_range]
+
+theorem runPicksF_eq (I : PrimInst) (s : PState) (ps : List Nat) : I.runPicksF s ps = I.runPicks s ps := by
+  induction ps generalizing s with
+  | nil => rfl
+  | cons p ps ih => simp only [runPicksF, runPicks, freeze_eq, ih]
+end PrimInst
+
+end Opf
